@@ -188,7 +188,7 @@ SMALLINT = {'complex', 'cond_rng', 'range', 'myint', 'delegate'}
 NO_F = {'complex'}              # complex(symbolic float) realises without end
 
 _GEN = '''
-@obligation(pre={pre!r}, witnesses={wit!r}, timeout={timeout})
+@obligation(pre={pre!r}, witnesses={wit!r}, timeout={timeout}, tiers={tiers!r})
 def body_gen_{name}_{grp}({sig}) -> int:
     """{what}: {name} converter, generic depth-1 value domain, shape group {grp}"""
     v = {builder}({args}, {vocab})
@@ -196,8 +196,9 @@ def body_gen_{name}_{grp}({sig}) -> int:
 '''
 
 
-def emit(ns, what, names=None, groups='ABCF', timeout=90):
-    """Generate the generic-domain bodies into namespace `ns` (a harness module's globals())."""
+def emit(ns, what, names=None, groups='ABCF', timeout=90, quick_groups='ABCF'):
+    """Generate the generic-domain bodies into namespace `ns` (a harness module's globals()).
+    Groups not in quick_groups are registered for the thorough tier only."""
     for name in (names or CONVS):
         if name in TEXT:
             continue
@@ -214,13 +215,14 @@ def emit(ns, what, names=None, groups='ABCF', timeout=90):
             if REJ.get(name, 'A') == grp:
                 wit.append(-1)
             vocab = VOCAB.get(name, ('a', 'b', 'zz'))
+            tiers = ('quick', 'thorough') if grp in quick_groups else ('thorough',)
             if grp == 'F':
                 src = _GEN.format(name=name, grp=grp, sig=GVF_SIG, args=GVF_ARGS, pre=GVF_PRE, builder='gvf',
-                                  vocab=repr(vocab), wit=(), timeout=60, what=what)
+                                  vocab=repr(vocab), wit=(), timeout=60, what=what, tiers=tiers)
             else:
                 src = _GEN.format(name=name, grp=grp, sig=GV_SIG, args=GV_ARGS, pre=GV_PRE[grp], builder='gv',
                                   vocab=repr(vocab) + (', True' if name in SMALLINT else ''), wit=tuple(wit),
-                                  timeout=timeout, what=what)
+                                  timeout=timeout, what=what, tiers=tiers)
             exec(src, ns)
 
 
@@ -459,10 +461,12 @@ TD = {
     'tag_int': ('tag_int', "tk: int, ha: bool, ka: int, ia: int, sa: str, he: bool",
                 "0 <= tk <= 8 and 0 <= ka <= 5", "b_tag_int(tk, ha, ka, ia, sa, he)", (0, -1)),
     'tag_ext': ('tag_ext', "tk: int, bk: int, ha: bool, ka: int, ia: int, sa: str, he: bool, n: int",
-                "1 <= tk <= 8 and tk != 6 and tk != 7 and 0 <= bk <= 1 and 0 <= ka <= 5 and 0 <= n <= 2",
+                "1 <= tk <= 8 and tk != 6 and tk != 7 and 0 <= bk <= 1 and 0 <= ka <= 5 and 0 <= n <= 2 and "
+                "((n == 1 and tk <= 2) or (bk == 0 and not ha and not he))",
                 "b_tag_ext(tk, bk, ha, ka, ia, sa, he, n)", (0, -1)),
     'tag_adj': ('tag_adj', "tk: int, bk: int, ha: bool, ka: int, ia: int, sa: str, he: bool, shape: int",
-                "1 <= tk <= 8 and 0 <= bk <= 1 and 0 <= ka <= 5 and 0 <= shape <= 4",
+                "1 <= tk <= 8 and 0 <= bk <= 1 and 0 <= ka <= 5 and 0 <= shape <= 4 and "
+                "((shape == 0 and tk <= 2) or (bk == 0 and not ha and not he))",
                 "b_tag_adj(tk, bk, ha, ka, ia, sa, he, shape)", (0, -1)),
     'range': ('range', "hs: bool, he: bool, e: int, nsel: int, ssel: int",
               "0 <= e <= 1 and 0 <= nsel <= 7 and 0 <= ssel <= 4", "b_range(hs, he, e, nsel, ssel)", (0, -1)),
@@ -495,7 +499,7 @@ TD = {
     'struct_struct': ('struct', "pa: bool, ka: int, ia: int, sa: str, pb: bool, kb: int, ib: int, sb: str, pe: bool",
                       "0 <= ka <= 5 and 0 <= kb <= 2", "b_struct2(pa, ka, ia, sa, pb, kb, ib, sb, pe)", (0, -1)),
     'pal': ('pal', "y1: int, y2: int, ka: int, ia: int, sa: str, bk: int",
-            "0 <= y1 <= 3 and 0 <= y2 <= 4 and 0 <= ka <= 5 and 0 <= bk <= 3", "b_pal(y1, y2, ka, ia, sa, bk)", (0, -1)),
+            "0 <= y1 <= 3 and 0 <= y2 <= 4 and 0 <= ka <= 5 and 0 <= bk <= 3 and ((y2 == 4 and bk == 0) or ka == 2)", "b_pal(y1, y2, ka, ia, sa, bk)", (0, -1)),
     'nested': ('nested', "shape: int, ka: int, ia: int, sa: str", "0 <= shape <= 6 and 0 <= ka <= 5",
                "b_nested(shape, ka, ia, sa)", (0, -1)),
     'nested_ragged': ('nested_ragged', "shape: int, ka: int, ia: int, sa: str", "0 <= shape <= 6 and 0 <= ka <= 5",
